@@ -52,7 +52,7 @@ def cls(kind, feat):
 
 def renderings(line, salt, all_spellings):
     f = line["form"]
-    sps = render.time_spellings(line["w"])
+    sps = render.time_spellings(line["w"], True)
     if not all_spellings:
         sps = [sps[salt % len(sps)]]
     out = []
@@ -71,7 +71,7 @@ def renderings(line, salt, all_spellings):
         elif f == "time_shift":
             out.append((sp, "%s %s %s" % (t1, line["op"], render.dur_parts_text(line["parts"], "en", salt + i))))
         elif f == "time_diff":
-            sps2 = render.time_spellings(line["w2"])
+            sps2 = render.time_spellings(line["w2"], True)
             sp2 = sps2[(salt + i) % len(sps2)][0]
             out.append((sp + "." + sp2, "%s to %s" % (t1, render.time_text(line["w2"], line["z2"], sp2))))
     return out
@@ -86,7 +86,7 @@ def run(rep):
                 "line in one admissible spelling (24 h, with seconds, am/pm forms); non-trivial = zone conversion, shift or difference, or an explicit zone. "
                 "Random part: random times, zones, durations and default zones validated by TLC." % len(zd["all"]))
     rep.assumptions = ["renderer lib/render.py (time spellings, zone names from config.json timezones)", "zone offsets are those of config.json (the property says 'the table')",
-                       "12:xx am/pm is left out; zone names that are also currency codes or month names are left out",
+                       "12:xx am is 00:xx and 12:xx pm is 12:xx (the pinned tree reads 12:xx am as noon: known finding); zone names that are also currency codes or month names are left out",
                        "'T1 to T2' is only specified when neither wall - offset leaves the day (one reading only)", "process time zone fixed to UTC", "TLC 1.8.0"]
     r = tlc_must_pass("MC_Clock", "MC_Clock", workers=8, timeout=900)
     rep.add_tlc("MC_Clock", r)
@@ -110,6 +110,7 @@ def run(rep):
         for var, text in renderings(line, gi, allsp):
             feat = line_feat(line)
             feat["deftz"] = c["def"]["name"]
+            feat["twelve_am"] = "12am" in var
             items.append({"line": line, "text": text, "cfg": cfg, "lang": "en", "expected": c["expected"], "variant": var, "feat": feat,
                           "class_fn": cls, "nontrivial": line["form"] != "time_lit" or bool(line["z"]["name"])})
     forms.replay(rep, items, "c11.gen")
@@ -154,6 +155,7 @@ def random_trace(rep, zd, n):
         var, text = rs[rng.randrange(len(rs))]
         feat = line_feat(line)
         feat["deftz"] = defz["name"]
+        feat["twelve_am"] = "12am" in var
         items.append({"line": line, "text": text, "cfg": cfg_for(defz), "lang": "en", "variant": "random", "feat": feat, "class_fn": cls})
     forms.trace(rep, items, "c11.rand")
     zone_histories(rep, zd, rng, max(20, n // 60))
@@ -195,7 +197,8 @@ def zone_histories(rep, zd, rng, nhist):
                     line = {"form": "time_lit", "w": wall, "z": dict(NOZONE)}
                 else:
                     line = {"form": "time_conv", "w": wall, "z": dict(NOZONE), "z2": rng.choice(zd["all"])}
-                rs = renderings(line, k, False)
+                rs = [r for r in renderings(line, k, True) if "12am" not in r[0]]       # 12:xx am is the known finding of the literal forms
+                rs = [rs[k % len(rs)]]
                 steps.append({"op": "execute", "lang": "en", "text": rs[0][1]})
                 evs.append({"ev": "execute", "lang": "en", "lines": [line]})
         cases.append({"id": "zh%d" % hi, "cfg": render.cfg_with(), "steps": steps, "fresh": True})
